@@ -52,9 +52,14 @@ def Store.set (s : Store) (p : String) (c : Bytes) : Store := (p, c) :: s.filter
 /-- one cart named on the command line -/
 structure CartArg where
   name : String                -- as given
-  png : Bool                   -- ends with .p8.png (else .p8)
   loads : Bool                 -- `_games_for_filenames` could load it (otherwise an error is reported and the cart is skipped)
   enc : Enc                    -- what writing its processed form does (returns the new file's chunks / raises)
+
+/-- the name ends with `.p8.png` -/
+def CartArg.png (c : CartArg) : Bool := c.name.endsWith ".p8.png"
+
+/-- the name is a cart name at all (`.p8` or `.p8.png`); any other argument is reported and passed over -/
+def CartArg.cart (c : CartArg) : Bool := c.png || c.name.endsWith ".p8"
 
 def stem (c : CartArg) : String := (c.name.dropEnd (if c.png then 7 else 3)).toString
 
@@ -65,11 +70,12 @@ def outName (overwrite : Bool) (c : CartArg) : String :=
 inductive Outcome | done (hasErrors : Bool) | raised
   deriving DecidableEq, Repr
 
-/-- the loop: an unloadable cart is skipped (flagged); a cart whose write raises ends the command there (the exception
+/-- the loop: an argument that is not a cart name is passed over (a message, no flag, nothing written); an unloadable cart is skipped (flagged); a cart whose write raises ends the command there (the exception
 propagates), leaving the later carts unprocessed -/
 def processGameFiles (overwrite : Bool) : List CartArg → Store → Bool → Store × Outcome
   | [], s, err => (s, .done err)
   | c :: rest, s, err =>
+    if !c.cart then processGameFiles overwrite rest s err else
     if !c.loads then processGameFiles overwrite rest s true else
     let out := outName overwrite c
     let r := toFile c.enc c.png (s.get out)
